@@ -104,6 +104,8 @@ type world struct {
 
 	// per-case attack state shared between a kind's Install and Attack
 	gate *authsim.Gate
+	// spoof-burst kinds: the ladder of questions and their bursts
+	bursts []burstQ
 
 	sentMu sync.Mutex
 	sent   []string // summaries of the first scripted (attack) messages the evil servers built
@@ -243,6 +245,7 @@ func buildWorld(spec WorldSpec) *world {
 	w.evil.AddDNAME("dn.evil.test.", zVictim, 60)
 	w.evil.AddMarked("host.sub.evil.test.", dns.TypeA, 60)
 	w.evil.AddMarked("host.sub.evil.test.", dns.TypeAAAA, 60)
+	addBurstData(w.evil)
 	w.evil.AddAddr(evilNS, net.ParseIP(addrEvil4), 60)
 	w.evil.AddAddr(evilNS, net.ParseIP(addrEvil6), 60)
 
